@@ -85,6 +85,40 @@ Theorem C15_refused_calls :
 Proof. exact refused_unchanged. Qed.
 Print Assumptions C15_refused_calls.
 
+(* ---- sessions on one live object: resizing calls, assignments of new values on the same grid, integrate / bin
+   queries in any order. The invariant survives every session whose value assignments have the length of the grid;
+   a query leaves the object alone and its answer is integrate / bin of the object it is applied to (the model carries
+   no other state: the tie compares every query inside a session with this, so a memo kept by the implementation
+   between calls must be invisible); new values k*v on the same grid multiply every integral by k ---- *)
+Theorem C15_session_invariant :
+  forall (cs : list call) (s : spectrum), wf s -> session_ok s cs ->
+  wf (after_session s cs) /\ Forall (fun r => wf (fst (fst r))) (session s cs).
+Proof. exact session_wf. Qed.
+Print Assumptions C15_session_invariant.
+
+Theorem C15_queries_answer_from_the_current_object :
+  forall (s : spectrum),
+  (forall a b r, fst (fst (do_call s (CIntegrate a b r))) = s /\
+     match integrate s a b r with
+     | Ok x => do_call s (CIntegrate a b r) = ((s, None), ANum x)
+     | Err e => do_call s (CIntegrate a b r) = ((s, Some e), ANone) end) /\
+  (forall c r e pp, fst (fst (do_call s (CBin c r e pp))) = s /\
+     match bin s c r e pp with
+     | Ok b => do_call s (CBin c r e pp) = ((s, None), ABins b)
+     | Err e' => do_call s (CBin c r e pp) = ((s, Some e'), ANone) end).
+Proof. exact query_pure. Qed.
+Print Assumptions C15_queries_answer_from_the_current_object.
+
+Theorem C15_integrate_after_value_scaling :
+  forall (s : spectrum) (k : Qc) (lo hi : option Qc) (r : rule), length (value s) = length (wave s) ->
+  match integrate s lo hi r, integrate (set_value s (map (Qcmult k) (value s))) lo hi r with
+  | Ok i, Ok j => j = k * i
+  | Err e1, Err e2 => e1 = e2
+  | _, _ => False
+  end.
+Proof. exact integrate_scaled. Qed.
+Print Assumptions C15_integrate_after_value_scaling.
+
 Definition q (n d : Z) : Qc := Q2Qc (n # Z.to_pos d).
 
 (* ---- (a) integrate is linear in the values, for both rules, any bounds (None = the end of the grid) ---- *)
